@@ -466,6 +466,27 @@ func k8(args []string) {
 			res.C13 = append(res.C13, k8Case{"build-constraint-beyond-co-kept", err == nil && strings.Contains(first, "alt"), fmt.Sprintf("source: //go:build co && !alt; derived file starts with %q %s", first, lastLineWith(o, "panic"))})
 		}
 	}
+	// go:generate mode with a file suffix and a build tag other than the default ones
+	{
+		self, _ := os.Executable()
+		root := filepath.Join(mod, "g10")
+		src := "//go:build gen\n\npackage pkg\n\nimport . \"github.com/goghcrow/go-co\"\n\nfunc Nums(n int) Iter[int] {\n\tfor i := 0; i < n; i++ {\n\t\tYield(i)\n\t}\n\treturn nil\n}\n"
+		mustWrite(filepath.Join(root, "pkg", "nums_gen.go"), src)
+		mustWrite(filepath.Join(root, "pkg", "use.go"), "package pkg\n\nfunc Sum(n int) int {\n\tt := 0\n\tit := Nums(n)\n\tfor it.MoveNext() {\n\t\tt += it.Current()\n\t}\n\treturn t\n}\n")
+		c := exec.Command(self, "gogen-one", "-dir", filepath.Join(root, "pkg"), "-suffix", "gen", "-tag", "gen")
+		c.Dir = mod
+		o, err := c.CombinedOutput()
+		b, _ := os.ReadFile(filepath.Join(root, "pkg", "nums.go"))
+		first := strings.SplitN(string(b), "\n", 2)[0]
+		bo, berr := []byte(nil), error(nil)
+		if err == nil {
+			bc := exec.Command("go", "build", "./g10/pkg")
+			bc.Dir = mod
+			bo, berr = bc.CombinedOutput()
+		}
+		ok := err == nil && first == "//go:build !gen" && strings.Count(string(b), "//go:build") == 1 && berr == nil
+		res.C16 = append(res.C16, k8Case{"custom-suffix-and-build-tag", ok, fmt.Sprintf("gogen ok=%v; nums.go starts with %q, %d build constraints; build: %s %s", err == nil, first, strings.Count(string(b), "//go:build"), tail(string(bo), 200), lastLineWith(string(o), "PANIC"))})
+	}
 	// a third tree: a co file of a sub-package IMPORTS the package above it, whose generators are generated in
 	// the same run (finding D26 on this tree: the optimise stage type-checks the temporary copy of the
 	// sub-package against the real upper package, which has no generated file yet)
